@@ -79,7 +79,7 @@ def run_tlc(root, cfg=None, cfg_text=None, extra_files=None, env=None, workers=1
             cfgname = root + "_gen.cfg"
             with open(os.path.join(d, cfgname), "w") as fh:
                 fh.write(cfg_text)
-        cmd = ["java", "-XX:+UseParallelGC", "-Xmx" + xmx, "-Xss16m"]
+        cmd = ["java", "-XX:+UseParallelGC" if workers > 1 else "-XX:+UseSerialGC", "-Xmx" + xmx, "-Xss16m"]
         if deque:
             cmd.append("-Dtlc2.tool.queue.IStateQueue=StateDeque")
         cmd += ["-cp", JAR, "tlc2.TLC", "-workers", str(workers), "-metadir", os.path.join(d, "states"),
